@@ -115,7 +115,10 @@ func Load(patterns []string, options ...func(c *packages.Config)) (*Universe, er
 	}
 
 	for i := range pkgs {
-		register(pkgs[i])
+		// a root that an earlier root imports is registered already, and the importer's table points to that registration
+		if _, ok := u.pkgs[pkgs[i].PkgPath]; !ok {
+			register(pkgs[i])
+		}
 	}
 
 	u.localPkgPaths = localPkgPaths
